@@ -1184,7 +1184,7 @@ Proof.
   rewrite is_basic_65, Hm.
   replace (1 <=? rw_row r) with true by lia. replace (rw_row r <=? 15) with true by lia.
   replace (0 <=? rw_tab r) with true by lia. replace (rw_tab r <=? 3) with true by lia.
-  replace (0 <=? rw_style r) with true by lia. replace (rw_style r <? 16) with true by lia.
+  replace (0 <=? rw_style r) with true by lia. replace (rw_style r <? 18) with true by lia.
   replace ((rw_indent r =? 0) || (rw_style r <=? 1)) with true by lia.
   replace (rw_indent r + rw_tab r + Z.of_nat 1 <=? 32) with true by lia. reflexivity.
 Qed.
